@@ -265,7 +265,9 @@ Fixpoint evict_list (stale_only : bool) (refs : list Z) (maxt : Z) (l : list mse
    restored by loadChunkSnapshot (s_snap of them) get no chunks.Inc().  [extra] = head chunks that
    the replay created (chunks.Inc()) and resetSeriesWithMMappedChunks then dropped
    (setHeadChunks(nil, 0)) without touching the gauge, when a second series record with the same
-   labels was met. *)
+   labels was met.  [bextra] = bucket entries that a replayed append (appendWALHistogram reads
+   newBuckets before the append, like commitHistograms) added in place to the histogram that
+   became lastHistogramValue. *)
 Definition replay_ser (c : ctrs) (s : mser) : ctrs :=
   let c1 := add_series 1 c in
   let c2 := add_chunks (ser_chunks s - s_snap s) c1 in
@@ -285,7 +287,7 @@ Inductive op :=
       (* Head.Truncate / DB.CompactOOOHead: [flush the OOO head chunks;] Head.gc() if it ran *)
 | OEvict (stale_only : bool) (refs : list Z) (maxt : Z) (* DB.CompactStaleHead / CompactSelectedSeries -> gcSeries *)
 | ONop                                                  (* Delete, queries: no counter is touched *)
-| ORestart (post : list mser) (extra : Z).              (* Close + Open *)
+| ORestart (post : list mser) (extra bextra : Z).       (* Close + Open *)
 
 Definition step (oooCap : Z) (st : state) (o : op) : state :=
   match o with
@@ -324,7 +326,7 @@ Definition step (oooCap : Z) (st : state) (o : op) : state :=
       let '(l2, d, x) := evict_list so refs maxt (st_series st) in
       mkSt l2 (st_orph st ++ d) (st_open st) (sub_removed (st_c st) x)
   | ONop => st
-  | ORestart post extra => mkSt post [] [] (add_chunks extra (fold_left replay_ser post ctrs0))
+  | ORestart post extra bextra => mkSt post [] [] (add_buckets (- bextra) (add_chunks extra (fold_left replay_ser post ctrs0)))
   end.
 
 Definition run (oooCap : Z) (ops : list op) : state := fold_left (step oooCap) ops state0.
@@ -355,7 +357,7 @@ Definition wf_op (st : state) (o : op) : bool :=
   match o with
   | OCommit _ _ l => forallb (wf_landed (st_series st)) l
   | OTrunc _ _ flush _ => forallb (fun p => snd p =? 1) flush
-  | ORestart post extra => forallb wf_ser post && (extra =? 0)
+  | ORestart post extra bextra => forallb wf_ser post && (extra =? 0) && (bextra =? 0)
   | _ => true
   end.
 
